@@ -100,6 +100,9 @@ def nf(test, evalfn, opaque=None):
         except (TypeError, ValueError, KeyError, Exception) as e:   # noqa: broad on purpose -> opaque literal
             if opaque is None:
                 raise
+            if len(test.ops) == 1 and isinstance(test.ops[0], (ast.Eq, ast.NotEq)):
+                a, b = sorted([opaque(vals[0]), opaque(vals[1])])
+                return frozenset([frozenset([("opaque", "%s == %s" % (a, b), isinstance(test.ops[0], ast.Eq))])])
     try:
         v = evalfn(test)
         if isinstance(v, bool):
